@@ -1,4 +1,4 @@
-import Aiortc.Lemmas.C02.DrainPRReach
+import Aiortc.Lemmas.C02.DrainPRBoth
 /-!
 # C02 (f), continued — partially reliable traffic in the fault history (FORWARD TSN)
 
@@ -127,6 +127,36 @@ theorem C02PR_drains_abstract (s0 : PLink) (h0 : s0.Fresh) (fs : List Fault) (hb
   refine ⟨j, hj, hd, h5, ?_, by rw [h1, h3], by rw [h2, h3], by rw [h4, h3, T_succ]⟩
   rw [h3, hn]; rfl
 
+/-! ## both directions of one association
+
+The model's endpoints never bundle a SACK with DATA (`Endpoint.sendChunk` builds one packet per chunk), and here the sender and
+the receiver half of an endpoint share no state: an association is the product of the link A → B (`A.Tx`, `B.Rx`) and the link
+B → A (`fault2`, `step2`, `run2` in `Lemmas/C02/DrainPRBoth.lean`). -/
+
+/-- **`C02PR_drains_both_directions`**: two fresh links, ANY finite history of moves on either of them, then the canonical
+continuation of the association (both links step): within the larger of the two bounds both directions are drained, and in
+each the sender's cumulative ack, its advanced peer ack point and the peer's cumulative TSN equal the last TSN assigned. -/
+theorem C02PR_drains_both_directions (a0 b0 : PLink) (ha : a0.Fresh) (hb : b0.Fresh) (fs : List (Bool × Fault))
+    (hba : sentTotal (movesOf true fs) + 1 < 2147483648) (hbb : sentTotal (movesOf false fs) + 1 < 2147483648) :
+    let s := fs.foldl fault2 (a0, b0)
+    ∃ j, j ≤ max s.1.drainBound s.2.drainBound ∧ (run2 j s).1.Drained ∧ (run2 j s).2.Drained
+      ∧ (run2 j s).1.rx.last = (a0.tx.lastSacked + (sentTotal (movesOf true fs) : Int)) % 4294967296
+      ∧ (run2 j s).1.tx.lastSacked = (run2 j s).1.rx.last ∧ (run2 j s).1.tx.advAck = (run2 j s).1.rx.last
+      ∧ (run2 j s).2.rx.last = (b0.tx.lastSacked + (sentTotal (movesOf false fs) : Int)) % 4294967296
+      ∧ (run2 j s).2.tx.lastSacked = (run2 j s).2.rx.last ∧ (run2 j s).2.tx.advAck = (run2 j s).2.rx.last := by
+  intro s
+  have hs : s = ((movesOf true fs).foldl PLink.fault a0, (movesOf false fs).foldl PLink.fault b0) := foldl_fault2 fs (a0, b0)
+  obtain ⟨κ1, f1, r1, hc1, hn1⟩ := C02PR_reachable_coherent a0 ha (movesOf true fs) hba
+  obtain ⟨κ2, f2, r2, hc2, hn2⟩ := C02PR_reachable_coherent b0 hb (movesOf false fs) hbb
+  have h1 : CohP a0.tx.lastSacked κ1 f1 r1 s.1 := by rw [hs]; exact hc1
+  have h2 : CohP b0.tx.lastSacked κ2 f2 r2 s.2 := by rw [hs]; exact hc2
+  have hn1' : f1 + s.1.tx.nOut = sentTotal (movesOf true fs) := by rw [hs]; exact hn1
+  have hn2' : f2 + s.2.tx.nOut = sentTotal (movesOf false fs) := by rw [hs]; exact hn2
+  obtain ⟨j, hj, d1, d2, a1, a2, a3, c1, c2, c3⟩ := drains_both h1 h2
+  refine ⟨j, hj, d1, d2, ?_, by rw [a2, a1], by rw [a3, a1], ?_, by rw [c2, c1], by rw [c3, c1]⟩
+  · rw [a1, hn1']; rfl
+  · rw [c1, hn2']; rfl
+
 /-! ## non-vacuity: an abandoned message and a FORWARD TSN that is lost twice -/
 
 def relMsg : SendArgs := { sid := 1, ppid := 53, data := [1, 2, 3], expiry := none, maxRtx := none, ordered := true }
@@ -166,5 +196,16 @@ example : (PLink.run 4 demo1).tx.sentQ = [] ∧ (PLink.run 4 demo1).tx.outQ = []
 def demo2 : PLink := (demoFaults ++ [Fault.dropData 0]).foldl PLink.fault demo0
 example : demo2.Quiet ∧ demo2.tx.t3 = true ∧ demo2.tx.lastSacked = 99 ∧ demo2.tx.advAck = 100 :=
   ⟨⟨by decide, by decide, by decide⟩, by decide, by decide, by decide⟩
+
+/-- a history on both links: the one above on A → B, a lost reliable message on B → A -/
+def demoBoth : List (Bool × Fault) := demoFaults.map (fun f => (true, f)) ++ [(false, .send relMsg), (false, .dropData 0)]
+def demoB0 : PLink := { tx := (Ep.init true 2 500).tx, rx := { last := 499, mis := [], dups := [] } }
+example : demoB0.Fresh :=
+  ⟨⟨rfl, rfl, rfl, rfl, by decide⟩, rfl, by unfold R32; decide, rfl, by decide, rfl, rfl, rfl, rfl, rfl⟩
+example : sentTotal (movesOf true demoBoth) = 3 ∧ sentTotal (movesOf false demoBoth) = 1 := by decide
+example : (run2 8 (demoBoth.foldl fault2 (demo0, demoB0))).1.rx.last = 102
+    ∧ (run2 8 (demoBoth.foldl fault2 (demo0, demoB0))).2.rx.last = 500
+    ∧ (run2 8 (demoBoth.foldl fault2 (demo0, demoB0))).2.tx.sentQ = []
+    ∧ (run2 8 (demoBoth.foldl fault2 (demo0, demoB0))).1.tx.sentQ = [] := by decide
 
 end Aiortc.Props.C02DrainPR
